@@ -1,7 +1,7 @@
 (* C08 - property theorems only; proofs live in Client/ClientLemmas.v, Client/ClientProofs.v,
    Client/CheckProofs.v *)
 From VT Require Import Client.ClientLemmas Client.CliCheck Client.ClientProofs Client.Witness.
-From VT Require Import Check.C08Check Client.CheckProofs.
+From VT Require Import Check.C08Check Client.CheckProofs Client.MirrorProofs.
 Open Scope N_scope.
 
 (* bad_namespace: emit / send / call on a namespace that is not in `namespaces` raise
@@ -156,6 +156,24 @@ Theorem C08_window_disconnect_fails_connect :
   snd (step cfg_w (fst r) (CEmit (s2l "x") PNone (Some slash) None)) = [Raised BadNamespaceError].
 Proof. exact window_disconnect_fails_connect. Qed.
 Print Assumptions C08_window_disconnect_fails_connect.
+
+(* mirror, history level: along the model's run of EVERY history (any configuration, any length) the
+   mirror + reset judgement of the checker ([c08_state] on the server view computed by [view_step]:
+   `namespaces` = namespaces accepted and not ended with the sids the server sent, `connected` set
+   while one remains and cleared when the last one ended / the transport is down, nothing survives
+   the end of the transport) holds after every operation, up to the first operation that leaves the
+   domain ([view_step] = None: a handler raises or a packet is outside the protocol; [in_domain] =
+   false: CONNECT_ERROR after connect() returned for '/' or for an accepted namespace - the open
+   finding class root-refusal-then-accept-leaves-connected-false) *)
+Theorem C08_mirror : forall c ops, mirror_run c cli_init sv_init ops = true.
+Proof. exact mirror_history. Qed.
+Print Assumptions C08_mirror.
+(* the invariant behind it: one operation keeps the model and the server's view in step *)
+Theorem C08_mirror_step : forall c s sv o v,
+  Sim s sv -> in_domain s sv o = true -> view_step c s sv (dump_of s) o = Some v ->
+  Sim (fst (step c s o)) (v_view v) /\ c08_state (v_view v) (dump_of (fst (step c s o))) = O.
+Proof. exact mirror_step. Qed.
+Print Assumptions C08_mirror_step.
 
 (* the checkers on the model's own runs *)
 Theorem C08_corr_accepts_model : forall c ops, corr_ok (model_case c ops) = true.
